@@ -50,6 +50,13 @@ func c25NewPool(n int) *c25Pool {
 				w.Header().Set("Connection", "close")
 				if strings.HasPrefix(r.URL.Path, "/tags/") && r.Method == "GET" {
 					fmt.Fprint(w, c25Digest.String())
+				} else if strings.HasPrefix(r.URL.Path, "/list/") || strings.HasPrefix(r.URL.Path, "/repositories/") {
+					// a two-page listing: the client comes back to the same host for the second page
+					next := ""
+					if r.URL.Query().Get("offset") == "" && !strings.Contains(r.URL.RawQuery, "limit") {
+						next = r.URL.Path + "?offset=page2"
+					}
+					fmt.Fprintf(w, `{"Links":{"next":%q,"self":""},"size":1,"result":["repo:tag"]}`, next)
 				} else {
 					fmt.Fprint(w, "ok")
 				}
@@ -134,6 +141,14 @@ func c25TagExec(t *verifh.T, p *c25Pool, c verifh.Case) {
 				err = cc.Put("repo:tag", c25Digest)
 			case "Origin":
 				_, err = cc.Origin()
+			case "List":
+				_, err = cc.List("repo")
+			case "ListWithPagination":
+				_, err = cc.ListWithPagination("repo", tagclient.ListFilter{Limit: 5})
+			case "ListRepository":
+				_, err = cc.ListRepository("repo")
+			case "ListRepositoryWithPagination":
+				_, err = cc.ListRepositoryWithPagination("repo", tagclient.ListFilter{Limit: 5})
 			case "PutAndReplicate":
 				err = cc.PutAndReplicate("repo:tag", c25Digest)
 			case "Replicate":
@@ -230,7 +245,16 @@ func TestVerif_C25TagClient(t *testing.T) {
 			tr.Count("size_sweep_once", 1)
 		}
 	}
-	methods := []string{"Get", "Has", "Put", "Origin", "PutAndReplicate", "Replicate"}
+	// every method that goes through clusterClient.do, on the worst case (all hosts down) and a mixed one
+	for _, m := range []string{"Get", "Has", "Put", "PutAndReplicate", "Origin", "Replicate", "List", "ListWithPagination", "ListRepository", "ListRepositoryWithPagination"} {
+		for _, k := range []int{1, 3, 4, 9} {
+			for _, outs := range []string{"n", "nno", "o", "ne"} {
+				c25TagExec(tr, pool, c25TagCase("do", m, first(k), outs))
+				tr.Count("all_methods", 1)
+			}
+		}
+	}
+	methods := []string{"Get", "Has", "Put", "Origin", "PutAndReplicate", "Replicate", "List", "ListWithPagination", "ListRepository", "ListRepositoryWithPagination"}
 	for i := 0; i < verifh.Scale(600, 30000); i++ {
 		k := r.Intn(41)
 		idx := r.Perm(40)[:k]
